@@ -258,6 +258,20 @@ theorem multi_conn (pb n : Nat) (ops : List MOp) : ∀ v ∈ mrun pb n ops,
   rw [hok]
   exact ⟨(ctl_stream pb v.trace).2, (ctl_stream pb v.trace).1, ctl_no_attempt_after_fatal pb v.trace⟩
 
+/-- **multi_conn_history**: several connections sharing the one deferred sender, over TIME.  For every history `a` of
+whole operations, every continuation `b` and every connection `i`: the connection's state after `a ++ b` is its state
+after `a` moved on by further Part-B actions, hence the bytes its socket has accepted and everything queued on it only
+grew at the end — whatever the other connections did in between (sends, flushes in any `select` order, disconnects,
+closes, purges). -/
+theorem multi_conn_history (pb n : Nat) (a b : List MOp) (i : Nat) (v : MView) (h : (mrun pb n a)[i]? = some v) :
+    ∃ v', (mrun pb n (a ++ b))[i]? = some v' ∧ (∃ acts, v'.st = crun v.st acts) ∧
+      Ext v.st.accepted v'.st.accepted ∧ Ext v.st.queued v'.st.queued := by
+  obtain ⟨v', h1, h2⟩ := (mrun_grows pb n a b).get i v h
+  exact ⟨v', h1, h2, h2.hist⟩
+example : ((mrun 2 2 [.send 1 [9] (.accept 5), .send 0 [1,2,3] (.accept 1)])[0]?).map (·.st.accepted) = some [1] ∧
+    ((mrun 2 2 ([.send 1 [9] (.accept 5), .send 0 [1,2,3] (.accept 1)] ++ [.disc 1 true, .flush [(0, [])]]))[0]?).map
+      (·.st.accepted) = some [1,2,3] := by decide
+
 /-- the interleaving that used to defeat it (finding C20-R1, now repaired): a `Connection.send` that passed its
 `disconnected` test before the sender thread hit the fatal error.  Kept as a regression witness: it is replayed on the
 real code by the harness (corpus case `send_raced`). -/
